@@ -146,7 +146,15 @@ def p1_panics(ctx):
             # the key under which the site is judged: its own, or - when code was moved into a helper / closure - the key it
             # would have in the function that owns the helper, if a reviewed or known entry exists for that one
             ks = ob.keys()
-            pick = next((k for k in ks if k in REVIEWED or ('C01/P1/' + k) in known_keys), ks[0])
+            pick = next((k for k in ks if k in REVIEWED or ('C01/P1/' + k) in known_keys), None)
+            if pick is None:
+                # closure numbers shift when a closure is added or removed in front of this one: an entry written for
+                # `f::{closure#0}` keeps applying to the same kind of site in `f::{closure#1}`
+                cn = lambda k: re.sub(r'\{closure#\d+\}', '{closure#}', k)
+                by_norm = {}
+                for k0 in list(REVIEWED) + [k1[len('C01/P1/'):] for k1 in known_keys if k1.startswith('C01/P1/')]:
+                    by_norm.setdefault(cn(k0), k0)
+                pick = next((by_norm[cn(k)] for k in ks if '{closure#' in k and cn(k) in by_norm), ks[0])
             left[pick].append(ob)
     for b in bodies:
         for gt, ct, fam, why in held_across_calls(D, b):
